@@ -43,6 +43,12 @@ CHECKS = {
         text="Everything in this property is a statement about literal tables and linear layouts and asks for exactness. The check extracts, with an affine-form abstract interpreter over the resolved AST, the tables that Generator(i), hat(), Vee, smallAdj() and InnerWeights() build for SO2, SE2, SO3, SE3, SE_2_3, SGal3, Rn and a 4-element Bundle, and proves over Q: generators are constant and linearly independent, every out-of-range index probe raises invalid_argument, hat = sum c_i E_i cell by cell, Vee(hat c) = c, smallAdj = structure constants of hat/vee, antisymmetry, Jacobi, bracket = smallAdj*b, inner = a^T W b, W = Frobenius Gram and SPD, weightedNorm = sqrt(squaredWeightedNorm). An idiom the interpreter does not know yields exit 2, never a pass.",
         note="Trusted: clang 14 AST/constant folding; the transfer functions for the Eigen idioms listed in engine/symeval.py. Quick: R3 + one Bundle layout; thorough adds R1, R9 and two more layouts.",
     ),
+    "C04": dict(
+        level="proof", design="3/C04",
+        technique="static analysis: term normalisation (R-FWD) - the generic layer's instantiated AST is inlined down to the per-group vocabulary and compared with the documented compositions and with the canonical member of every alias, Jacobian roles included",
+        text="The property says which composition each derived operation IS and that every alias returns what the canonical member returns: that is a statement about the forwarding structure of LieGroupBase, TangentBase and functions.h, finite and decidable on the resolved AST. For 8 group variants the check normalises 33 entries each (5 definitions, plus/minus, operators + - * == += *=, lift/retract, t.rplus/lplus/plus(X), t+X, 14 free functions) to terms over {compose, inverse, exp, log, ...} and requires syntactic equality with the documented term / the canonical member's term; each optional Jacobian must receive the term of the output with the same role.",
+        note="Trusted: clang's overload resolution and CRTP dispatch as recorded in the AST. Per-group members are uninterpreted symbols (their correctness is C01-C03). The numerical corollaries ((X+t)-X = t) are not decided.",
+    ),
 }
 
 NOT_APPLICABLE = {
